@@ -391,14 +391,31 @@ def _run_rowt(case, ctx):
     data, df, lens = _panel(dict(case, values="random"), allow_unequal=False)
     arr = np.abs(np.array(data)) + 1.0
     which = case["p"] % 3
+
+    def used(rt, target):
+        """half of the cases: the row transformer starts with another wrapped transformer, is applied to a panel of the same size and is then
+        reconfigured - what it does afterwards is the wrapped transformer of its current configuration on every cell"""
+        if (case["p"] // 3) % 2 == 0:
+            return rt
+        try:
+            rt.fit_transform(arr[::-1] * 0.5 + 2.0)
+            rt.transform(arr * 0.25 + 1.0)
+            ctx.tag("row-transformer:used-then-reconfigured")
+        except Exception as e:  # noqa
+            ctx.tag("row-transformer:earlier-life-refused:" + type(e).__name__)
+        return rt.set_params(transformer=target)
     if which == 0:
-        ok, out = ctx.call("rowt:exception", SeriesToSeriesRowTransformer(CosineTransformer(), check_transformer=bool(case["p"] % 2)).fit_transform, arr)
+        ok, out = ctx.call("rowt:exception", used(SeriesToSeriesRowTransformer(LogTransformer() if (case["p"] // 3) % 2 else CosineTransformer(), check_transformer=bool(case["p"] % 2)),
+                                                  CosineTransformer()).fit_transform, arr)
         exp = [[np.cos(arr[i, j]) for j in range(arr.shape[1])] for i in range(arr.shape[0])]
     elif which == 1:
-        ok, out = ctx.call("rowt:exception", SeriesToSeriesRowTransformer(LogTransformer()).fit_transform, arr)
+        ok, out = ctx.call("rowt:exception", used(SeriesToSeriesRowTransformer(CosineTransformer() if (case["p"] // 3) % 2 else LogTransformer()), LogTransformer()).fit_transform, arr)
         exp = [[np.log(arr[i, j]) for j in range(arr.shape[1])] for i in range(arr.shape[0])]
     else:
-        ok, out = ctx.call("rowt:exception", SeriesToPrimitivesRowTransformer(MeanTransformer()).fit_transform, arr)
+        class MaxT(MeanTransformer):
+            def transform(self, Z, X=None):
+                return np.max(np.asarray(Z), axis=0)
+        ok, out = ctx.call("rowt:exception", used(SeriesToPrimitivesRowTransformer(MaxT() if (case["p"] // 3) % 2 else MeanTransformer()), MeanTransformer()).fit_transform, arr)
         if ok:
             e2 = np.array([[sum(arr[i, j]) / arr.shape[2] for j in range(arr.shape[1])] for i in range(arr.shape[0])])
             ctx.check("row-transformers", _eq(np.asarray(out, dtype=float), e2, 1e-12), "row-transformers:primitives-not-cell-wise", "primitive row transformer is not the wrapped transformer applied to every cell")
